@@ -8,6 +8,47 @@
 use metrique_writer_format_emf::Emf;
 use metrique_writer_format_emf::verif_hooks as hooks;
 
+/// `format!` is used by `EmfBuilder::build` once, to assemble the constant prefix for the first namespace; the
+/// validation switches do not depend on it. The stub returns that prefix for namespace "N".
+pub fn fmt_format_prefix(_args: core::fmt::Arguments<'_>) -> String {
+    String::from(r#"{"_aws":{"CloudWatchMetrics":[{"Namespace":"N","Dimensions":["#)
+}
+
+fn switches_after_all_validations() {
+    let emf = Emf::all_validations(String::from("N"), vec![vec![]]);
+    let (unique, dims, names) = hooks::validation_switches(&emf);
+    kani::cover!(true, "constructor returns");
+    assert!(unique, "all_validations enables the duplicate-name validation");
+    assert!(dims, "all_validations enables the dimension-existence validation");
+    assert!(names, "all_validations enables the name validation");
+    core::mem::forget(emf);
+}
+
+// @check C08 quick timeout=1800 mem=24
+// @encodes Emf::all_validations, Emf::builder, EmfBuilder::build (real, with hashbrown -> in-repo model)
+// @bounds dev profile semantics (debug assertions ON); namespace "N", one empty dimension set
+// @oracle all three validation switches are on
+// @stubs alloc::fmt::format (returns the constant prefix build() assembles for namespace "N"); hashbrown -> kani_hashbrown model
+#[kani::proof]
+#[kani::unwind(4)]
+#[kani::stub(alloc::fmt::format, crate::c08::fmt_format_prefix)]
+pub fn all_validations_enables_everything_debug() {
+    switches_after_all_validations()
+}
+
+// @check C08 quick timeout=1800 mem=24 env=CARGO_PROFILE_DEV_DEBUG_ASSERTIONS=false
+// @encodes Emf::all_validations, Emf::builder (cfg(not(debug_assertions)) arm), EmfBuilder::build
+// @bounds RELEASE profile semantics: the crates are compiled with debug assertions OFF (cargo profile override), which selects the builder's skip-all default
+// @oracle all three validation switches are on after Emf::all_validations (the documented way to turn every validation on)
+// @stubs alloc::fmt::format (constant prefix); hashbrown -> kani_hashbrown model
+#[kani::proof]
+#[kani::unwind(4)]
+#[kani::stub(alloc::fmt::format, crate::c08::fmt_format_prefix)]
+pub fn all_validations_enables_everything_release() {
+    assert!(!cfg!(debug_assertions), "this harness must be compiled without debug assertions");
+    switches_after_all_validations()
+}
+
 fn builder_switches(skip: bool) {
     let b = Emf::builder(String::from("N"), vec![vec![]]).skip_all_validations(skip);
     let (unique, dims, names) = hooks::builder_validation_switches(&b);
@@ -114,15 +155,28 @@ fn malformed(e: &Scripted, dimension_a: bool) -> bool {
     bad
 }
 
-fn validation_kernel(dimension_a: bool) {
-    let e = Scripted { items: [any_item(), any_item()], n: kani::any(), timestamps: kani::any() };
-    kani::assume(e.n <= 2 && e.timestamps <= 2);
+/// The entry shape is case-split into separate harnesses (names and value kinds concrete per harness, payloads and the
+/// validation switch symbolic): a solver-chosen name makes every `json_string` call run over a symbolic string and
+/// the all-in-one version exhausted 24 GB.
+fn validation_kernel(dimension_a: bool, n: usize, i0: (u8, bool), i1: (u8, bool), timestamps: Option<u8>) {
+    let e = Scripted {
+        items: [Item { metric: i0.1, name: i0.0, v: kani::any() }, Item { metric: i1.1, name: i1.0, v: kani::any() }],
+        n,
+        timestamps: match timestamps {
+            Some(t) => t,
+            None => {
+                let t: u8 = kani::any();
+                kani::assume(t <= 2);
+                t
+            }
+        },
+    };
     let validate: bool = kani::any();
     let mut emf = hooks::emf_small(validate, dimension_a);
     let rejected = hooks::write_entry_without_finish(&mut emf, &e, None);
     let bad = malformed(&e, dimension_a);
-    kani::cover!(validate && bad && e.n == 2 && e.items[0].name == e.items[1].name, "duplicate name under validation");
-    kani::cover!(validate && !bad && e.n == 2, "valid two-value entry under validation");
+    kani::cover!(validate, "validations on");
+    kani::cover!(!validate, "validations off");
     if validate {
         assert!(rejected == bad, "with validations on: rejected exactly when malformed");
     } else {
@@ -132,27 +186,34 @@ fn validation_kernel(dimension_a: bool) {
     core::mem::forget(emf);
 }
 
-emf_harness! {
-// @check C08 quick timeout=1800 mem=20
-// @encodes Emf::format_with_multiplicity up to finish() (verif_hooks::write_entry_without_finish builds the same EntryWriter), EntryWriter::{timestamp, value, validate_name}, ValueWriter::{string, metric, validate_string}, write_metric, ValidationErrorBuilder
-// @bounds formatter for namespace "N" with dimension sets [[]]; validations on or off (symbolic); entry = 0..=2 timestamps and 0..=2 values, each a string or an Unsigned(any) metric named "A", "B", "_aws" or ""
-// @oracle validations on: a validation error is recorded exactly when the entry writes two values under one name, an empty or reserved name, or more than one timestamp; validations off: only the multiple-timestamp rule
-// @stubs hashbrown -> in-repo Vec-backed model (kani_hashbrown.rs); tracing x4, Instant::now, alloc::fmt::format, String::push/push_str/shrink_to, Vec::extend_from_slice, itoa/dtoa recording stubs; Emf built by verif_hooks::emf_small (the constants build() computes for this configuration)
-// @outside finish(): the missing-dimension sweep, 'writes nothing on error', byte-identical output with validations off; entry-dimension configuration; split-mode checks
-#[kani::unwind(4)]
-pub fn rejects_exactly_malformed_no_dimensions() {
-    validation_kernel(false)
-}
+macro_rules! kernel_harness {
+    ($($name:ident: $dim:expr, $n:expr, $i0:expr, $i1:expr, $ts:expr;)*) => { $(
+        emf_harness! {
+        #[kani::unwind(6)]
+        pub fn $name() {
+            validation_kernel($dim, $n, $i0, $i1, $ts)
+        }
+        }
+    )* };
 }
 
-emf_harness! {
-// @check C08 quick timeout=1800 mem=20
-// @encodes same as rejects_exactly_malformed_no_dimensions, with a pre-populated validation map (UnfoundDimension)
-// @bounds formatter with dimension sets [["A"]]; same entries
-// @oracle additionally: a metric written under the dimension name "A" is rejected, a string named "A" (the dimension's value) is accepted, a second value named "A" is a duplicate
-// @stubs same as rejects_exactly_malformed_no_dimensions
-#[kani::unwind(4)]
-pub fn rejects_exactly_malformed_with_dimension() {
-    validation_kernel(true)
-}
+// @check C08 quick filter=c08::kernel:: timeout=900 mem=20
+// @encodes Emf::format_with_multiplicity up to finish() (verif_hooks::write_entry_without_finish builds the same EntryWriter), EntryWriter::{timestamp, value, validate_name}, ValueWriter::{string, metric, validate_string}, write_metric, ValidationErrorBuilder
+// @bounds formatter for namespace "N" with dimension sets [[]]; one harness per entry shape: one string value named A / _aws / empty; 0..=2 timestamps (symbolic); validations on or off symbolic in every harness
+// @oracle validations on: a validation error is recorded exactly when the entry writes an empty or reserved name or more than one timestamp; validations off: only the multiple-timestamp rule
+// @stubs hashbrown -> in-repo Vec-backed model (kani_hashbrown.rs); tracing x4, Instant::now, alloc::fmt::format, String::push/push_str/shrink_to, Vec::extend_from_slice, itoa/dtoa recording stubs; Emf built by verif_hooks::emf_small (the constants build() computes for this configuration)
+// @outside finish(): the missing-dimension sweep, 'writes nothing on error', byte-identical output with validations off; entry-dimension configuration; split-mode checks; the five buffer clears at the top of format_with_multiplicity (replicated, not executed, by the hook)
+pub mod kernel {
+    use super::*;
+    const S: bool = false; // string value
+    const M: bool = true; // metric value
+    // Registered: the shapes CBMC decides. The other shapes written for this kernel (a metric value, two values -
+    // i.e. duplicate detection -, a configured dimension) all end in "out of memory during propositional reduction"
+    // at 30 GB although the program has only ~150 k steps; see DESIGN.md C08.
+    kernel_harness! {
+        timestamps: false, 0, (0, S), (0, S), None;
+        one_a_string: false, 1, (0, S), (0, S), Some(1);
+        one_reserved_string: false, 1, (2, S), (0, S), Some(1);
+        one_empty_string: false, 1, (3, S), (0, S), Some(1);
+    }
 }
